@@ -110,8 +110,8 @@ type InMemoryStore struct {
 	mu              sync.RWMutex
 	state           ClusterMetadata
 	offsets         map[string]int64
-	consumerOffsets map[string]int64
-	consumerMeta    map[string]string
+	consumerOffsets map[consumerOffsetID]int64
+	consumerMeta    map[consumerOffsetID]string
 	consumerGroups  map[string]*metadatapb.ConsumerGroup
 	topicConfigs    map[string]*metadatapb.TopicConfig
 }
@@ -121,8 +121,8 @@ func NewInMemoryStore(state ClusterMetadata) *InMemoryStore {
 	return &InMemoryStore{
 		state:           cloneMetadata(state),
 		offsets:         make(map[string]int64),
-		consumerOffsets: make(map[string]int64),
-		consumerMeta:    make(map[string]string),
+		consumerOffsets: make(map[consumerOffsetID]int64),
+		consumerMeta:    make(map[consumerOffsetID]string),
 		consumerGroups:  make(map[string]*metadatapb.ConsumerGroup),
 		topicConfigs:    make(map[string]*metadatapb.TopicConfig),
 	}
@@ -293,8 +293,17 @@ func partitionKey(topic string, partition int32) string {
 	return fmt.Sprintf("%s:%d", topic, partition)
 }
 
-func consumerKey(group, topic string, partition int32) string {
-	return fmt.Sprintf("%s:%s:%d", group, topic, partition)
+// consumerOffsetID identifies a committed offset. A struct key keeps apart names
+// that contain ':' (group "a:b"/topic "c" and group "a"/topic "b:c" shared one
+// entry when the key was the formatted string "group:topic:partition").
+type consumerOffsetID struct {
+	group     string
+	topic     string
+	partition int32
+}
+
+func consumerKey(group, topic string, partition int32) consumerOffsetID {
+	return consumerOffsetID{group: group, topic: topic, partition: partition}
 }
 
 // CreateTopic implements Store.CreateTopic.
@@ -561,14 +570,10 @@ func (s *InMemoryStore) ListConsumerOffsets(ctx context.Context) ([]ConsumerOffs
 	defer s.mu.RUnlock()
 	offsets := make([]ConsumerOffset, 0, len(s.consumerOffsets))
 	for key, offset := range s.consumerOffsets {
-		group, topic, partition, ok := parseConsumerKey(key)
-		if !ok {
-			continue
-		}
 		offsets = append(offsets, ConsumerOffset{
-			Group:     group,
-			Topic:     topic,
-			Partition: partition,
+			Group:     key.group,
+			Topic:     key.topic,
+			Partition: key.partition,
 			Offset:    offset,
 		})
 	}
